@@ -173,6 +173,25 @@ theorem updateTask_rejected (env : Env) (fail : List String) (w : World) (id : S
 theorem deleteTask_ok (w : World) (id : String) : (deleteTask w id).2 = .ok := by
   unfold deleteTask; split <;> rfl
 
+theorem dieTask_ok (w : World) (id : String) : (dieTask w id).2 = .ok := by
+  unfold dieTask; split <;> rfl
+
+theorem dieTask_view (w : World) (id : String) : (dieTask w id).1.view = w.view.setExec id false := by
+  unfold dieTask
+  split
+  · simp
+  · rename_i h
+    rw [note_view]
+    unfold View.setExec World.view
+    congr 1
+    funext i
+    by_cases hi : i = id
+    · subst hi; simp at h; simp [h]
+    · simp [hi]
+
+theorem dieTask_store (w : World) (id : String) : (dieTask w id).1.store = w.store := by
+  unfold dieTask; split <;> simp
+
 theorem createTemplate_rejected (env : Env) (w : World) (id s : String) : Rej w (createTemplate env w id s) := by
   unfold createTemplate
   rej_walk
@@ -192,6 +211,7 @@ theorem handle_rejected (env : Env) (fail : List String) (w : World) (op : Op) :
   · exact updateTemplate_rejected env fail w _ _ _
   · exact rej_ok _ _
   · exact rej_ok _ _
+  · exact rej_of_okfail (Or.inl (dieTask_ok w _))
 
 /-! ### process start -/
 
